@@ -109,15 +109,16 @@ class Recorder:
         self.json_ok = json_ok          # get_media may be used (undamaged body)
         self.is_async = is_async
         self.events = []
-        self.stop = None                # 'error' | 'exc' | None
-        self.pending = None             # the MultipartParseError to re-raise in a full-stack run
+        self.stop = None                # 'end' | 'error' | 'exc' | None
+        self.pending = None             # the first MultipartParseError (re-raised at the end of a full-stack run)
 
     # -- one consumption call on a part; returns False when the part must not be touched again
     def _classify(self, e, ex):
         import falcon
         if isinstance(ex, falcon.errors.MultipartParseError):
             e['out'], e['why'] = 'error', _why(ex)
-            self.pending = ex
+            if self.pending is None:
+                self.pending = ex
             return
         if isinstance(ex, bytesrc.Hang):
             e['out'], e['why'] = 'hang', str(ex)
@@ -150,7 +151,6 @@ class Recorder:
         it = iter(form)
         i = 0
         while self.script.max_next is None or i < self.script.max_next:
-            self.pending = None
             e = _ev('next')
             try:
                 part = next(it)
@@ -208,9 +208,6 @@ class Recorder:
                     return
                 if e['out'] == 'error':
                     break                      # the part is not touched again
-            if self.pending is not None and self.fullstack:
-                self.stop = 'error'
-                return
         return
 
     async def run_async(self, form):
@@ -218,7 +215,6 @@ class Recorder:
         it = form.__aiter__()
         i = 0
         while self.script.max_next is None or i < self.script.max_next:
-            self.pending = None
             e = _ev('next')
             try:
                 part = await it.__anext__()
@@ -285,12 +281,7 @@ class Recorder:
                     return
                 if e['out'] == 'error':
                     break
-            if self.pending is not None and self.fullstack:
-                self.stop = 'error'
-                return
         return
-
-    fullstack = False
 
 
 # ------------------------------------------------------------------------------------------------
@@ -330,8 +321,8 @@ def _apps():
             rec = _Holder.rec
             form = req.get_media()
             rec.run_sync(form)
-            if rec.stop == 'error' and rec.pending is not None:
-                raise rec.pending
+            if rec.stop != 'exc' and rec.pending is not None:
+                raise rec.pending       # the application lets the first parse error through at the end
             resp.media = {'events': len(rec.events)}
 
     class ARes:
@@ -339,8 +330,8 @@ def _apps():
             rec = _Holder.rec
             form = await req.get_media()
             await rec.run_async(form)
-            if rec.stop == 'error' and rec.pending is not None:
-                raise rec.pending
+            if rec.stop != 'exc' and rec.pending is not None:
+                raise rec.pending       # the application lets the first parse error through at the end
             resp.media = {'events': len(rec.events)}
 
     w = falcon.App()
@@ -375,7 +366,6 @@ def execute(stack, body, b, lim, script, variant, json_ok=True, hang_after=4.0):
                 form = bytesrc.drive(h.deserialize_async(BufferedReader(src, variant['cs']), ctype, len(body)))
                 bytesrc.drive(rec.run_async(form))
             else:
-                rec.fullstack = True
                 w, a = _apps()
                 app = w if stack == 'wsgi' else a
                 app.req_options.media_handlers[falcon.MEDIA_MULTIPART] = make_handler(lim)
@@ -448,7 +438,7 @@ def encodable(form, env):
     return all((bytes(p['content']) + delim).find(delim) == len(p['content']) for p in form)
 
 
-BCHARS = "abcdefghijklmnopqrstuvwxyzABCDEFGHIJKLMNOPQRSTUVWXYZ0123456789'()+_,-./:=?"
+BCHARS = "abcdefghijklmnopqrstuvwxyzABCDEFGHIJKLMNOPQRSTUVWXYZ0123456789'()+_-./:=?"   # RFC 2046 bchars minus the comma (see run())
 NAMES = ['a', 'field', 'f-1', 'a b', 'x;y=z', 'é', 'имя', '名', 'a;filename=q', "it's"]
 FILES = ['f.txt', 'a b.png', 'x;y.bin', 'é.txt', '€ x.txt', 'naïve file.tar.gz', '名.pdf', 'a%20b', "o'k.txt"]
 JSONS = [1, 'x', '--', {'a': 1}, [1, 2, '--b'], {'k': ['é', None, True]}, '\r\n--', {'--': '--'}]
@@ -682,3 +672,253 @@ def compare(want, got, edited):
             if w['out'] == 'error' and w['why'] != g['why']:
                 return 'D:why', i, 'spec %s, code %s' % (w['why'], g['why'])
     return None
+
+
+# ------------------------------------------------------------------------------------------------
+# the check
+# ------------------------------------------------------------------------------------------------
+
+X_ACTIONS = ['XAddPart', 'XSeal', 'XCorrupt', 'XServe', 'XFirst', 'XSkip', 'XNextAfterPartial', 'XNextAfterFull',
+             'XReadSome', 'XReadAll', 'XExhaust', 'XGetData', 'XGetText', 'XGetMedia', 'XReadUntil']
+
+
+def action_coverage(ctx, module, cfg, timeout=300):
+    """Vacuity guard.  TLC's -coverage cost model needs minutes for this specification (it expands the
+    nested byte-string operators at every use site), so the per-action counts are taken from TLC's
+    state-graph dump with action labels of a small instance that has every action of Next."""
+    import os
+    import re
+    path = os.path.join(ctx.scratch, 'cov-%s.dot' % cfg)
+    r = ctx.tlc(module, cfg, workers=4, timeout=timeout, extra=('-dump', 'dot,actionlabels', path))
+    counts = {}
+    with open(path) as f:
+        for line in f:
+            if '->' in line:
+                m = re.search(r'label="(\w+)"', line)
+                if m:
+                    counts[m.group(1)] = counts.get(m.group(1), 0) + 1
+    os.unlink(path)
+    r.coverage = {k: (v, v) for k, v in counts.items()}
+    ctx.tlc_runs[-1]['coverage'] = dict(counts)
+    return r
+
+
+def nontrivial(form, lim, script_ops):
+    """DESIGN 2.6: a part content contains CR/LF/dash, or a part was not fully consumed, or a limit is
+    within 1 of the size (every non-default limit the generators produce is)."""
+    if any(x in (13, 10, 45) for p in form for x in p['content']):
+        return True
+    if lim != BASE_LIM:
+        return True
+    full = ('get_data', 'get_text', 'get_media', 'exhaust')
+    for i, p in enumerate(form):
+        ops = script_ops[i] if i < len(script_ops) else []
+        if not any(o[0] in full or (o[0] == 'read' and o[1] < 0) for o in ops):
+            return True
+    return False
+
+
+def expected_status(want):
+    return 400 if any(e['out'] == 'error' for e in want) else 200
+
+
+def run(ctx):
+    ctx.rule = ('case = (form, boundary/preamble/epilogue/final CRLF, limits, body bytes, consumption script, stack, '
+                'reader buffer size, transport chunking); non-trivial iff a part content contains CR, LF or a dash, or '
+                'some part is not fully consumed, or a limit is within 1 of the size it bounds; distinct by hash of '
+                '(body, limits, script)')
+    ctx.trusted_base = ['TLC evaluation of spec/Multipart.tla (encoder, iteration, UTF-8 well-formedness)',
+                        "CPython str.encode('utf-8') and json.dumps for projecting text / media",
+                        'engine/bytesrc.py byte sources, engine/drivers.py raw WSGI/ASGI drivers']
+    ctx.assumptions = ['names and plain filenames contain no double quote or backslash; charset is UTF-8',
+                       'a part is not touched again after one of its buffered accessors raised',
+                       'damaged bodies keep 7-bit header blocks (a damaged non-UTF-8 header value is outside the property)',
+                       'the request carries a correct Content-Length',
+                       'Cython twin falcon/cyutil/reader.pyx: stale-or-absent, not checked']
+    rng = ctx.rng
+
+    # ---- leg M: the design -------------------------------------------------------------------
+    r = action_coverage(ctx, 'MC_Multipart', 'MC_MultipartCov.cfg')
+    ctx.require_coverage(r, X_ACTIONS)
+    ctx.tlc('MC_Multipart', ctx.pick('MC_MultipartQ.cfg', 'MC_Multipart.cfg'), timeout=ctx.pick(600, 2400))
+    ctx.tlc('MC_Multipart', ctx.pick('MC_MultipartLim.cfg', 'MC_MultipartLimT.cfg'), timeout=ctx.pick(600, 2400))
+    ctx.tlc('MC_Multipart', ctx.pick('MC_MultipartCorruptQ.cfg', 'MC_MultipartCorrupt.cfg'), timeout=ctx.pick(600, 2400))
+    rb = ctx.tlc('MC_Multipart', 'MC_MultipartBad.cfg', must_hold=False, count=False, workers=4, timeout=300)
+    if rb.violated != 'ParseOfEncodeIsForm':
+        raise MachineryError('vacuity: the wrong design (delimiter without CRLF) does not violate ParseOfEncodeIsForm')
+    ctx.extra['wrong_design_run'] = 'DelimWithCRLF=FALSE violates ParseOfEncodeIsForm (as it must)'
+    ctx.progress('leg M done: %d states' % ctx.states)
+
+    # ---- leg A: behaviours exported by TLC, replayed ---------------------------------------------
+    beh = {}
+    for cfg in ctx.pick(('MC_MultipartExp.cfg', 'MC_MultipartExpC.cfg'),
+                        ('MC_MultipartExp.cfg', 'MC_MultipartExp2.cfg', 'MC_MultipartExpC.cfg')):
+        rx = ctx.tlc('MC_Multipart', cfg, workers=4, timeout=1200)
+        for b in rx.json:
+            beh[digest(b)] = b
+    if not ctx.quick:
+        rs = ctx.tlc('MC_Multipart', 'MC_MultipartSim.cfg', simulate={'num': 60}, depth=24, seed=ctx.seed + 1,
+                     workers=8, timeout=1200, count=False)
+        for b in rs.json:
+            if b['ev'] and (b['ev'][-1]['out'] in ('end', 'error') or len(b['ev']) >= 14):
+                beh[digest(b)] = b
+    fired = set()
+    for b in beh.values():
+        fired.update(e['op'] for e in b['ev'])
+        if b['edited']:
+            fired.add('corrupt')
+    missing = {'next', 'read', 'read_until', 'exhaust', 'get_data', 'get_text', 'get_media', 'corrupt'} - fired
+    if missing:
+        raise MachineryError('vacuous export: no behaviour contains %s' % sorted(missing))
+    ctx.extra['spec_behaviours'] = len(beh)
+    ctx.progress('leg A: %d distinct behaviours exported by TLC' % len(beh))
+    per = ctx.pick(5, 10)
+    replays = 0
+    blist = list(beh.values())
+    rng.shuffle(blist)
+    for b in blist:
+        body = bytes(b['body'])
+        bnd = bytes(b['env']['b'])
+        script = script_of(b['ev'])
+        want = b['ev']
+        nt = nontrivial(b['form'], b['lim'], script.ops)
+        for stack, var in variants(rng, len(body), bnd, per):
+            got = execute(stack, body, bnd, b['lim'], script, var, json_ok=not b['edited'])
+            case = {'origin': 'tlc-behaviour', 'stack': stack, 'variant': var, 'form': b['form'], 'env': b['env'],
+                    'lim': b['lim'], 'body': b['body'], 'edited': b['edited'], 'script': script.to_json(),
+                    'spec_events': want}
+            ctx.case(case if replays < 3 else None, nontrivial=nt, key=digest([b['body'], b['lim'], script.to_json()]))
+            replays += 1
+            bad = compare(want, got, b['edited'])
+            if bad is None and stack in ('wsgi', 'asgi') and len(got) > len(want):
+                st = got[len(want)]
+                if st['op'] == 'status' and (st['out'] == 'exc' or st['code'] != expected_status(want)):
+                    bad = ('P:exception' if st['out'] == 'exc' else 'P:status', len(want),
+                           'status %s %s, expected %d' % (st['code'], st['why'], expected_status(want)))
+            if bad:
+                case['observed'] = got
+                if bad[0].startswith('D:'):
+                    ctx.detail(bad[0], case, 'event %d: %s' % (bad[1], bad[2]))
+                else:
+                    ctx.violation(bad[0], case, '%s: event %d (%s): %s' % (stack, bad[1], want[min(bad[1], len(want) - 1)]['op'], bad[2]),
+                                  signature=signature_of(bad[0], want, bad[1]))
+    ctx.traces_validated += replays
+    ctx.progress('leg A done: %d replays' % replays)
+
+    # ---- leg B: bigger seeded cases, recorded and judged by TLC -----------------------------------
+    seen = {}            # trace digest -> (trace, case)
+    ncases = ctx.pick(1100, 16000)
+    per = ctx.pick(6, 10)
+    runs = 0
+    for i in range(ncases):
+        bnd = random_boundary(rng)
+        damaged = rng.random() < 0.3
+        form = random_form(rng, bnd, rng.choice((1, 2, 3, 3, 4, 6)), ascii_headers=damaged)
+        env = random_env(rng, form, bnd)
+        lim = random_limits(rng, form)
+        body = encode(form, env)
+        edit = None
+        if damaged:
+            body, edit = random_edit(rng, body, bnd)
+        script = random_script(rng, form, bnd)
+        runs += run_case(ctx, seen, form, env, lim, body, edit, script, variants(rng, len(body), bnd, per), 'random')
+    # bodies beyond the default reader buffers (32 KiB sync, 8 KiB async), full stack only
+    for i in range(ctx.pick(6, 60)):
+        bnd = random_boundary(rng)
+        form = random_form(rng, bnd, 2)
+        if not form:
+            continue
+        edge = rng.choice((8192, 8192, 16384, 32768, 32768))
+        k = rng.randrange(len(form))
+        pad = edge - rng.randint(0, 160) + rng.choice((0, 0, 40, 200))
+        form[k]['content'] = list(bytes(form[k]['content']) + b'x' * pad + random_content(rng, bnd, 3))
+        if bytes(form[k]['ctype']) == b'application/json':
+            form[k]['ctype'] = list(b'application/octet-stream')
+        env = random_env(rng, form, bnd)
+        if not encodable(form, env):
+            continue
+        lim = dict(BASE_LIM, buf=1 << 20)
+        body = encode(form, env)
+        script = random_script(rng, form, bnd, maxops=2)
+        script.ops = [[o for o in part if o[0] != 'get_text'] for part in script.ops]
+        vs = [('wsgi', {'chunks': None}), ('asgi', {'chunks': [rng.randint(1, 4000) for _ in range(40)]}),
+              ('wsgi', {'chunks': [rng.randint(1, 9000)]}), ('asgi', {'chunks': [1460] * 40})]
+        runs += run_case(ctx, seen, form, env, lim, body, None, script, vs, 'big')
+    ctx.progress('leg B: %d executions, %d distinct traces to judge' % (runs, len(seen)))
+    items = [(t, c) for t, c, _ in seen.values()]
+    verdicts = ctx.judge('MultipartTrace', [t for t, _ in items], timeout=3000, workers=16, chunk=1500)
+    for (trace, case), v in zip(items, verdicts):
+        if v == 'ok':
+            continue
+        clause, _, at = v.partition('@')
+        if clause.startswith('H:') or clause.startswith('S:'):
+            raise MachineryError('judge: %s at event %s for case %s' % (clause, at, json.dumps(case)[:2000]))
+        case = dict(case, observed=trace['ev'])
+        if clause.startswith('D:'):
+            ctx.detail(clause, case, 'event %s' % at)
+        else:
+            k = int(at) - 1 if at.isdigit() else 0
+            ev = trace['ev'][k] if 0 <= k < len(trace['ev']) else {}
+            ctx.violation(clause, case, '%s: trace rejected by MultipartTrace at event %s (%s -> %s %s)'
+                          % ('/'.join(case['stacks']), at, ev.get('op'), ev.get('out'), ev.get('why')),
+                          signature=signature_of(clause, trace['ev'], k))
+    ctx.extra['distinct_traces_judged'] = len(items)
+    ctx.extra['executions'] = runs + replays
+    ctx.note('all stacks, buffer sizes and chunkings of one (body, limits, script) collapse to one trace when the '
+             'parsers are correct: %d executions gave %d distinct traces' % (runs, len(items)))
+
+
+def signature_of(clause, ev, k):
+    """Narrow structural description of a failing history: the clause, the failing call and the call before it."""
+    e = ev[k] if 0 <= k < len(ev) else {}
+    prev = ev[k - 1] if 1 <= k <= len(ev) else {}
+    return {'clause': clause, 'op': e.get('op'), 'after': prev.get('op'), 'after_out': prev.get('out')}
+
+
+def run_case(ctx, seen, form, env, lim, body, edit, script, vs, origin):
+    """Executes one case on every (stack, variant).  The handler-level and the full-stack runs of a correct
+    implementation log the same calls; the full-stack ones add the HTTP status, which is appended (once per
+    distinct value) to the common trace."""
+    bnd = bytes(env['b'])
+    nt = nontrivial(form, lim, script.ops)
+    n = 0
+    for stack, var in vs:
+        ev = execute(stack, body, bnd, lim, script, var, json_ok=edit is None)
+        n += 1
+        status = ev[-1] if ev and ev[-1]['op'] == 'status' else None
+        core = ev[:-1] if status else ev
+        k = digest([list(body), lim, core])
+        ctx.case(None, nontrivial=nt, key=digest([list(body), lim, script.to_json()]))
+        if k not in seen:
+            trace = {'form': form, 'env': env, 'lim': lim, 'body': list(body), 'valid': edit is None, 'ev': list(core)}
+            case = {'origin': origin, 'stacks': [], 'variant': var, 'form': form, 'env': env, 'lim': lim,
+                    'body': list(body), 'edit': edit, 'script': script.to_json()}
+            seen[k] = (trace, case, [])
+            if len(ctx.samples) < 3 and nt and len(body) < 600:
+                ctx.sample({kk: vv for kk, vv in case.items() if kk != 'body'})
+        trace, case, statuses = seen[k]
+        if stack not in case['stacks']:
+            case['stacks'].append(stack)
+        if status is not None and status not in statuses:
+            statuses.append(status)
+            trace['ev'].append(status)
+    return n
+
+
+def replay(ctx, case):
+    c = case.get('case', case)
+    script = Script.from_json(c['script'])
+    body = bytes(c['body'])
+    bnd = bytes(c['env']['b'])
+    stacks = [c['stack']] if 'stack' in c else c['stacks']
+    for stack in stacks:
+        ev = execute(stack, body, bnd, c['lim'], script, c['variant'], json_ok=not (c.get('edited') or c.get('edit')))
+        print(stack, 'events:')
+        for e in ev:
+            print('  ', {k: v for k, v in e.items() if v not in (NONE, [], '', 0, False, -1)})
+        trace = {'form': c['form'], 'env': c['env'], 'lim': c['lim'], 'body': c['body'],
+                 'valid': not (c.get('edited') or c.get('edit')), 'ev': ev}
+        v = ctx.judge('MultipartTrace', [trace], workers=1)[0]
+        print('verdict:', v)
+        if v != 'ok' and not v.startswith('D:'):
+            ctx.violation(v.split('@')[0], c, 'trace rejected at %s' % v)
